@@ -1,6 +1,6 @@
 //! C13 — text fields are the 6-bit ASCII decoding with padding stripped.
 
-use crate::adapter::{Config, STD};
+use crate::adapter::{configs, Config, STD};
 use crate::engine::{Ctx, Input, Rec, Verdict};
 use crate::gen::payload::{payload_inputs, text_code, LenMode};
 use crate::props::payload::check_input;
@@ -59,7 +59,7 @@ fn texts_filled() -> impl Strategy<Value = Input> {
 
 pub fn run(ctx: &mut Ctx) {
     ctx.rule = "every text field (call sign 7, names 20, destination 20 and truncated, vendor id 3, model/serial 4, safety text 1..156/161 characters) filled from a biased stream of 6-bit codes (plenty of '@', space and the second half of the table '!'..'?'), each field at its own bit alignment; the reported string must equal the reference decoding with leading spaces, then trailing '@', then trailing spaces removed. Non-trivial = a field has a second-half character, an interior '@'/space, or is all padding; distinct by payload bytes.".into();
-    ctx.assumptions = vec!["std build only; texts over 20 characters in the no-allocator build are C18's".into()];
+    ctx.assumptions = vec!["texts over 20 characters are excluded in the no-allocator build (C18 decides those)".into()];
     ctx.replay_regressions(check);
 
     // deterministic: each of the 64 codes at each character position of each text field
@@ -92,7 +92,10 @@ pub fn run(ctx: &mut Ctx) {
                                     if ctx.sub_failed("code-by-position") {
                                         return;
                                     }
-                                    ctx.sweep_case("code-by-position", &STD, &Input::Payload { bytes: b }, check);
+                                    let input = Input::Payload { bytes: b };
+                                    for cfg in configs() {
+                                        ctx.sweep_case("code-by-position", cfg, &input, check);
+                                    }
                                 }
                             }
                         }
@@ -108,4 +111,7 @@ pub fn run(ctx: &mut Ctx) {
     let n = ctx.tier.pick(15_000, 500_000);
     ctx.run_proptest("random-assignments", &STD, n, payload_inputs(TEXT_TYPES.to_vec(), LenMode::Standard, Prop::C13, 8, 0.15), check);
     ctx.run_proptest("random-any-length", &STD, n, payload_inputs(vec![5, 12, 14], LenMode::Any, Prop::C13, 6, 0.15), check);
+    for cfg in configs().into_iter().skip(1) {
+        ctx.run_proptest("texts-filled", cfg, n, texts_filled(), check);
+    }
 }
